@@ -73,6 +73,7 @@ def parseBOps (s : String) : Option (List BOp) :=
     | 'D' => some (BOp.deliver ns f)
     | 'S' => some (BOp.outcome true ns f)
     | 'F' => some (BOp.outcome false ns f)
+    | 'T' => some (BOp.timeout ns)
     | _ => none
 
 /-- the BTC part of the property on one delivery's observed sessions -/
@@ -135,18 +136,39 @@ def handle (op : String) (args : List String) (impl : String) : Option Verdict :
     let some n := n.toNat? | return bad
     let some ops := parseBOps ops | return bad
     let resOf := fun k => k % 2
-    let (runs, mf) := runBtc resOf [] ops
-    let model := joinOr (runs.map fun r => showOut r.2.2) "/" ++ "#" ++ showStatuses mf n
+    -- the model, op by op (the same computation as `runBtc`, with a snapshot after every op)
+    let step := fun (m : List (Nat × Status)) (op : BOp) => match op with
+      | .deliver ns f => let (o, s') := btc resOf ⟨m, f⟩ ns; (showOut o, s'.m)
+      | .outcome ok ns f => ("-", (storeStatus ⟨m, f⟩ ns (if ok then .executed else .failed)).m)
+      | .timeout _ => ("-", m)
+    let (entries, mf) := ops.foldl (fun (acc : List String × List (Nat × Status)) op =>
+      let (r, m') := step acc.2 op
+      (acc.1 ++ [r ++ "~" ++ showStatuses m' n], m')) ([], [])
+    let model := joinOr entries "/" ++ "#" ++ showStatuses mf n
+    -- the property, evaluated on the implementation's OWN record: each delivery against the statuses the
+    -- implementation showed just before it; executed survives every delivery and every time-out
     let ok := match impl.splitOn "#" with
       | [outs, fin] =>
         let outs := items outs "/"
-        ((chars fin).mapM statusOf).isSome && outs.length == runs.length &&
-        (runs.zip outs).all fun (r, o) =>
-          match implSessions o with
-          | some ss => btcOk resOf r.1 r.2.1 ss
-          | none => false
+        let parsed := outs.mapM fun o => match o.splitOn "~" with
+          | [r, sn] => ((chars sn).mapM statusOf).bind fun fs =>
+              if fs.length = n then some (r, (List.range n).zip fs) else none
+          | _ => none
+        match parsed with
+        | some ps =>
+          ((chars fin).mapM statusOf).isSome && ps.length == ops.length &&
+          (((([] : List (Nat × Status)) :: ps.map (·.2)).zip (ps.zip ops)).all fun (prev, ((r, next), op)) =>
+            let keeps := (List.range n).all fun k => lookup prev k != Status.executed || lookup next k == Status.executed
+            match op with
+            | .deliver ns f =>
+              (match implSessions r with
+               | some ss => btcOk resOf ⟨prev, f⟩ ns ss && ss.flatten.all (fun k => k ≥ n || lookup next k == Status.pending)
+               | none => false) && keeps
+            | .timeout _ => keeps
+            | .outcome _ _ _ => true)
+        | none => false
       | _ => false
-    return ⟨model, ok, s!"histbtc:deliveries={min runs.length 4}:fault={runs.any fun r => faulted r.1 r.2.1}"⟩
+    return ⟨model, ok, s!"histbtc:ops={min ops.length 6 / 2}:timeout={ops.any fun o => match o with | .timeout _ => true | _ => false}"⟩
   | "tick", [kind, answers] => some <| Id.run do
     let some v := (chars answers).mapM ansOf | return bad
     let model := (if allExecuted v then "true" else "false") ++ "|" ++ joinOr ((asked v).map toString) ","
@@ -168,6 +190,29 @@ def handle (op : String) (args : List String) (impl : String) : Option Verdict :
           | _ => false
       | _ => false
     return ⟨model, ok, s!"watch:{kind}:n={min n 4}:ticks={min sc.length 4}:closed={(watch sc).isSome}:pendingAtSomeTick={sc.any (·.any (· ≠ .exec))}"⟩
+  | "sigwatch", [kind, gas, ns, script] => some <| Id.run do
+    let some ns := natList ns | return bad
+    let some sc := (items script "/").mapM (fun t => (chars t).mapM ansOf) | return bad
+    if sc.any (·.length ≠ ns.length) || ns.isEmpty then return bad
+    let g := if kind = "evm" then gas else "-"
+    let showSub := fun (x : List Nat) => joinOr (x.map toString) "," ++ "/" ++ g
+    let model := match watch sc with
+      | some t => s!"closed@{t}|-|ok"
+      | none => "submitted|" ++ joinOr ((submitAfterTicks sc ns).map showSub) ";" ++ "|ok"
+    let ok := match impl.splitOn "|" with
+      | [r, subs, inputs] =>
+        inputs == "ok" &&
+        (if r == "submitted" then
+          (match (items subs ";").mapM (fun it => match it.splitOn "/" with
+              | [xs, gg] => if gg == g then natList xs else none
+              | _ => none) with
+            | some ss => decide (PSubmit ns ss) && decide (PWatch sc none)
+            | none => false)
+        else match r.splitOn "@" with
+          | ["closed", t] => subs == "-" && (match t.toNat? with | some t => decide (PWatch sc (some t)) | none => false)
+          | _ => false)
+      | _ => false
+    return ⟨model, ok, s!"sigwatch:{kind}:n={min ns.length 4}:ticks={min sc.length 3}:closed={(watch sc).isSome}:partly={sc.any fun v => v.any (· = .exec) && v.any (· ≠ .exec)}"⟩
   | "submit", [kind, outcome, gas, ns] => some <| Id.run do
     let some ns := natList ns | return bad
     let g := if kind = "evm" then gas else "-"
